@@ -322,6 +322,11 @@ def gen_consts():
     for nm, var in [("reParentheses", "PARENTHESES_PATTERN"), ("reNumeral", "NUMERAL_PATTERN"), ("reKeepToken", "KEEP_TOKEN_PATTERN")]:
         RX(nm, regex_of(dd.assign(var)), "dictionary.py " + var)
 
+    ut = Src("dateparser/utils/__init__.py")
+    csrc = ast.unparse(ut.func("registry"))
+    i_pub = csrc.find("registry_dict[key] =")
+    i_key = csrc.find("'registry_key'") if "'registry_key'" in csrc else csrc.find('"registry_key"')
+    emit("/-- utils/__init__.py registry: the new instance gets its registry_key before it is stored in the shared dictionary -/\ndef registryCompletesFirst : Bool := " + lbool(0 <= i_key < i_pub))
     ldr = Src("dateparser/languages/loader.py")
     emit("/-- loader.py _construct_locales: a language without the requested region falls back to the plain language (is not dropped) -/\ndef loaderFallsBack : Bool := " + lbool("_filter_valid_locales(" not in ast.unparse(ldr.func("_construct_locales"))))
     lc = Src("dateparser/languages/locale.py")
